@@ -107,7 +107,13 @@ type sampleExtractor interface {
 
 func buildSampleExtractor(expr *logql.RangeAggregationExpr) (sampleExtractor, error) {
 	qrange := expr.Range
-	switch expr.Op {
+	op := expr.Op
+	if op == logql.RangeOpRate && qrange.Unwrap != nil {
+		// rate over unwrapped values is the per-second sum of the values,
+		// not of the lines: sample the label like sum_over_time does.
+		op = logql.RangeOpSum
+	}
+	switch op {
 	case logql.RangeOpCount, logql.RangeOpRate, logql.RangeOpAbsent:
 		return &lineCounterExtractor{}, nil
 	case logql.RangeOpBytes, logql.RangeOpBytesRate:
